@@ -185,7 +185,7 @@ func runProp(prop string) int {
 			needSmoke = true
 			continue
 		}
-		if fn.TypeParams().Len() > 0 {
+		if fn.TypeParams().Len() > 0 || len(P.instances[fn]) > 0 {
 			// a generic function: the contract is verified on every instantiation the
 			// program contains (the instances are what runs)
 			insts := append([]*ssa.Function{}, P.instances[fn]...)
@@ -421,7 +421,7 @@ func runProp(prop string) int {
 	}
 	// rule coverage: every rule must have matched at least one call site
 	for _, r := range rules {
-		if ruleHits[r.Name] == 0 && *flagFunc == "" && len(r.Requires) > 0 {
+		if ruleHits[r.Name] == 0 && *flagFunc == "" && !r.Optional {
 			fmt.Printf("BROKEN-CHECK callrule %s matched no call site (vacuous)\n", r.Name)
 			return 2
 		}
